@@ -621,9 +621,12 @@ def run_sequence(case, rec, twin=None, with_oracles=True):
     reconf = False        # attributes of Target / Vary objects were re-assigned
     no_limits = False     # the user (new limits) or a foreign call left a knob outside its limits: premise of C10 gone
     row_cfg = [copy.deepcopy(case["targets"]) for _ in range(prev_len)]   # target configuration when each row was logged
-    unit_at_log = unit    # were all vary weights 1 during the operation that logged a row (its knobs are then exact)
-    row_unit = [unit for _ in range(prev_len)]
+    # the vary weights in force during the operation that logged a row (all 1: its knobs are exact; otherwise the
+    # evaluation behind the row was at the round trip (k/w)*w of these weights)
+    w_at_log = [1.0 if v["weight"] is None else v["weight"] for v in case["vary"]]
+    row_unit = [list(w_at_log) for _ in range(prev_len)]
     if with_oracles:
+        out["C15"] += public_log_check(opt, -1)
         bad = within_limits(case, cont.values())
         if bad:
             out["C10"].append({"what": "start point outside limits accepted by the constructor", "knobs": bad})
@@ -667,6 +670,8 @@ def run_sequence(case, rec, twin=None, with_oracles=True):
         ob = observe(opt, cont, names, prev_len)
         prev_len = ob["loglen"]
         out["steps"].append({"out": status, "obs": ob})
+        if with_oracles and not ob["ragged"] and not any(f["what"].startswith("Optimize.log()") for f in out["C15"]):
+            out["C15"] += public_log_check(opt, iop)
         kn_after = cont.values()
         va_after = [bool(v.active) for v in e.vary]
         ta_after = [bool(t.active) for t in e.targets]
@@ -675,11 +680,14 @@ def run_sequence(case, rec, twin=None, with_oracles=True):
         while len(row_cfg) < nrows:
             row_cfg.append(copy.deepcopy(case["targets"]))
         while len(row_unit) < nrows:
-            row_unit.append(unit_at_log)
-        unit_at_log = all(v["weight"] == 1.0 for v in case["vary"])
+            row_unit.append(list(w_at_log))
+        w_at_log = [1.0 if v["weight"] is None else v["weight"] for v in case["vary"]]
         if kind in ("set", "foreign"):
             # not an operation of the properties' histories: only what it leaves behind matters
             if within_limits(case, kn_after):
+                no_limits = True
+            # new limits that exclude a point already in the log: reload() / the restore of solve() bring it back as it was
+            if kind == "set" and op[3] == "limits" and any(within_limits(case, [float(v) for v in L["knobs"][i]]) for i in range(nrows)):
                 no_limits = True
             if kind == "foreign":
                 out["foreign"].append([op[1], status])
@@ -825,6 +833,53 @@ def run_sequence(case, rec, twin=None, with_oracles=True):
     return out, opt
 
 
+LOG_COLS = (("knobs", "vary"), ("targets", "targets"), ("penalty", "penalty"), ("tag", "tag"), ("alpha", "alpha"),
+            ("vary_active", "vary_active"), ("target_active", "target_active"), ("tol_met", "tol_met"), ("hit_limits", "hit_limits"))
+
+
+def public_log(opt):
+    """the log as the PUBLIC entry point Optimize.log() reports it, in the layout of the private lists"""
+    tab = opt.log()
+    out = {}
+    for priv, col in LOG_COLS:
+        a = getattr(tab, col)
+        out[priv] = [list(r) for r in a] if priv in ("knobs", "targets") else list(a)
+    return out
+
+
+def same_cell(a, b):
+    if isinstance(a, (list, tuple, np.ndarray)) or isinstance(b, (list, tuple, np.ndarray)):
+        a, b = list(a), list(b)
+        return len(a) == len(b) and all(same_cell(x, y) for x, y in zip(a, b))
+    try:
+        fa, fb = float(a), float(b)
+        return fa == fb or (math.isnan(fa) and math.isnan(fb))
+    except (TypeError, ValueError):
+        return str(a) == str(b)
+
+
+def public_log_check(opt, iop):
+    """C15 speaks about the rows of opt.log(): the public table must show exactly the rows the optimizer recorded
+    (and reloads from), row for row, whenever it is asked"""
+    L = opt._log
+    n = min(len(L[k]) for k in L)
+    if n == 0 or any(len(L[k]) != n for k in L):
+        return []       # (an empty log - a clear_log() whose evaluation raised - has no table)
+    try:
+        P = public_log(opt)
+    except Exception as ex:
+        return [{"what": "Optimize.log() raised", "at": iop, "error": err_class(ex)}]
+    for priv, col in LOG_COLS:
+        if len(P[priv]) != n:
+            return [{"what": "Optimize.log() does not show the rows of the current log: " + str(len(P[priv])) + " rows in column '" +
+                             col + "', the log has " + str(n), "at": iop}]
+        for i in range(n):
+            if not same_cell(P[priv][i], L[priv][i]):
+                return [{"what": "Optimize.log() does not show the rows of the current log (reload(i) loads another row than the one displayed)",
+                         "at": iop, "row": i, "column": col, "shown": str(P[priv][i])[:200], "recorded": str(L[priv][i])[:200]}]
+    return []
+
+
 def rows_oracle(opt, cont, names, g, case, unit, iop, row_cfg=None, reconf=False, row_unit=None):
     """C15: reload(i) for every row of the current log, then evaluate
     independently.  Works on a deep copy so that the run is not disturbed."""
@@ -836,6 +891,10 @@ def rows_oracle(opt, cont, names, g, case, unit, iop, row_cfg=None, reconf=False
                          "later rows pair knob values with the penalty/targets of another point, reload(i) loads the wrong point",
                  "at": iop,
                  "lengths": {k: len(L[k]) for k in ("knobs", "penalty", "targets", "tag")}}]
+    try:
+        L = public_log(opt)         # the rows the property is about are those of the public table
+    except Exception:
+        pass
     saved_rec = CUR["rec"]
     CUR["rec"] = None
     if saved_rec is not None:
@@ -847,7 +906,8 @@ def rows_oracle(opt, cont, names, g, case, unit, iop, row_cfg=None, reconf=False
         unit_now = unit
         for i in range(nrows):
             # exact comparisons only if the weights were 1 both when the row was logged and now
-            unit = unit_now and (row_unit is None or i >= len(row_unit) or row_unit[i])
+            rw = None if (row_unit is None or i >= len(row_unit)) else row_unit[i]
+            unit = unit_now and (rw is None or all(w == 1.0 for w in rw))
             kn_row = [float(v) for v in L["knobs"][i]]
             va_row, ta_row = s2b(L["vary_active"][i]), s2b(L["target_active"][i])
             try:
@@ -873,14 +933,18 @@ def rows_oracle(opt, cont, names, g, case, unit, iop, row_cfg=None, reconf=False
             def agree(at):
                 r_, errs_, p_, scale_ = independent(g2, case, at, ta_row,
                                                     None if row_cfg is None or i >= len(row_cfg) else row_cfg[i])
-                ok_p = (math.isnan(p_) and math.isnan(float(L["penalty"][i]))) or \
+                ok_p = (math.isnan(p_) and math.isnan(float(L["penalty"][i]))) or p_ == float(L["penalty"][i]) or \
                     abs(p_ - float(L["penalty"][i])) <= 1e-9 * max(p_, float(L["penalty"][i])) + 1e-9 * scale_ + 1e-300
-                return ok_p and all((math.isnan(a) and math.isnan(float(b))) or
+                return ok_p and all((math.isnan(a) and math.isnan(float(b))) or a == float(b) or
                                     abs(a - float(b)) <= 1e-9 * (abs(a) + abs(float(b))) + 1e-12 * scale_ + 1e-300
                                     for a, b in zip(r_, L["targets"][i]))
             try:
                 if not unit and kn != kn_row and agree(kn_row):
                     continue    # reload moved the knobs by the rounding of the weight scaling: the row is right at its own knobs
+                if not unit and rw is not None:
+                    rt = [(k / w) * w for k, w in zip(kn_row, rw)]
+                    if rt != kn and agree(rt):
+                        continue    # the row was evaluated at the round trip under the weights of that time (changed since)
                 r, errs, p, scale = independent(g2, case, kn, ta_row,
                                                 None if row_cfg is None or i >= len(row_cfg) else row_cfg[i])
             except UserFault:
@@ -890,15 +954,15 @@ def rows_oracle(opt, cont, names, g, case, unit, iop, row_cfg=None, reconf=False
             tcfg = case["targets"] if (row_cfg is None or i >= len(row_cfg)) else row_cfg[i]
             # log10(res) - log10(value) cancels: libm rounding of the two logarithms is an absolute error
             haslog = any(ta_row[k] and tcfg[k].get("optimize_log") for k in range(len(tcfg)))
-            if math.isnan(p) and math.isnan(p_row):
-                pass
+            if (math.isnan(p) and math.isnan(p_row)) or p == p_row:
+                pass        # (equal infinities included)
             elif not abs(p - p_row) <= 1e-9 * max(p, p_row) + (0.0 if (unit and not haslog) else 1e-9 * scale) + 1e-300:
                 fails.append({"what": "penalty of the row is not reproduced by an independent evaluation at reload(i)",
                               "at": iop, "row": i, "row_penalty": H(p_row), "recomputed": H(p), "alpha": L["alpha"][i]})
                 continue
             for j in range(len(r)):
-                if math.isnan(r[j]) and math.isnan(t_row[j]):
-                    continue
+                if (math.isnan(r[j]) and math.isnan(t_row[j])) or r[j] == t_row[j]:
+                    continue        # (equal infinities included)
                 if not abs(r[j] - t_row[j]) <= (0.0 if unit else 1e-9 * (abs(r[j]) + abs(t_row[j])) + 1e-12 * scale + 1e-300):
                     fails.append({"what": "target values of the row are not reproduced at reload(i)", "at": iop, "row": i,
                                   "target": j, "row_value": H(t_row[j]), "recomputed": H(r[j])})
@@ -1005,7 +1069,8 @@ def main():
     sigs = {c.__name__: [p for p in inspect.signature(c.__init__).parameters if p != "self"]
             for c in (xo.Vary, xo.Target, xo.VaryList, xo.TargetList, xo.Optimize)}
     json.dump({"results": res, "public_api": public_api(), "modelled": sorted(MODELLED), "not_called": NOT_CALLED,
-               "ctor_signatures": sigs}, result_stream)
+               "ctor_signatures": sigs}, result_stream,
+              default=lambda o: o.item() if isinstance(o, np.generic) else str(o))
     result_stream.flush()
 
 
